@@ -2,7 +2,9 @@
 # Converse self-test: behaviour-preserving edits must not raise an alarm in any check.
 DIR="$(cd "$(dirname "$0")/.." && pwd)"
 rc=0
-for p in "$DIR"/benign/*.patch; do
+LIST="$@"; [ -z "$LIST" ] && LIST="$DIR"/benign/*.patch
+for p in $LIST; do
+  p=$(realpath "$p")
   SCR=$(mktemp -d /tmp/ben.XXXXXX)
   rsync -a --exclude target --exclude .git /repo/ "$SCR/"
   if ! (cd "$SCR" && patch -p1 -s < "$p"); then echo "SKIP $(basename $p) (does not apply)"; rm -rf "$SCR"; continue; fi
